@@ -522,7 +522,7 @@ func run(r *mc.Run) {
 	r.Assume("one data center; every server has an hdd disk; free EC slots of a server = 10 x max volume count - shards on it (no normal volumes), never negative in a snapshot")
 	r.Assume("even-spread target of a volume per rack = ceil(14 / number of racks), as the planner defines it; checked for every printed move that crosses racks")
 	r.Assume("'present exactly once per source of truth' is read as: in the final EcNode bookkeeping no shard id of a volume has fewer copies than before unless it had several (never zero), and none has more copies than before (dry run does not apply its own de-duplication)")
-	r.Assume("Go map iteration order inside the planner is not enumerated; a reported case must reproduce within 50 re-plans of the same snapshot")
+	r.Assume("Go map iteration order inside the planner is not enumerated; a reported case must reproduce within 400 re-plans of the same snapshot")
 	debug.SetGCPercent(400)
 	cp := newCapture()
 	if r.Replay != "" {
@@ -534,13 +534,13 @@ func run(r *mc.Run) {
 		return
 	}
 	b := bounds{
-		shapes:  [][]int{{1}, {2}, {1, 1}, {2, 1}, {2, 2}, {1, 1, 1}, {2, 1, 1}},
+		shapes:  [][]int{{1}, {2}, {1, 1}, {2, 1}, {2, 2}, {1, 1, 1}, {2, 1, 1}, {2, 2, 1}},
 		dups:    []int{0, 1, 2},
 		second:  []string{"", "all-on-s1", "round-robin"},
 		spareOf: []int{0, 1},
 	}
 	if r.Thorough() {
-		b.shapes = append(b.shapes, []int{2, 2, 1}, []int{2, 2, 2})
+		b.shapes = append(b.shapes, []int{2, 2, 2})
 		b.second = append(b.second, "all-on-s2", "blocks")
 		b.spareOf = []int{0, 1, 2}
 	}
@@ -572,7 +572,7 @@ func one(r *mc.Run, cp *capture, sn *Snapshot, desc string, seen map[string]int)
 	}
 	cc := *sn
 	r.Violate(class, msg, cc, func() bool {
-		for i := 0; i < 50; i++ {
+		for i := 0; i < 400; i++ {
 			if c2, _, _ := evaluate(cp, &cc); c2 == class {
 				return true
 			}
